@@ -88,3 +88,29 @@ func VerifTwoInstances() {
 	vAssert("package-state-untouched", vGlobalsUnchanged())
 	vReach("end")
 }
+
+// C24 (cpu part): two machines given identical state execute the same instruction: every register, the scheduler
+// state and every memory byte agree afterwards.
+func VerifTwinInstr() {
+	op := uint8(vCfg("op"))
+	cb := vCfg("cb") != 0
+	vTwinBegin()
+	a := newVerifMachine()
+	a.havocNamed("m.")
+	b := newVerifMachine()
+	b.havocNamed("m.")
+	pending := a.intr.ReadIE()&a.intr.ReadIF()&0x1f != 0
+	vAssume(!(a.imeAtBoundary() && pending))
+	a.placeOpcode(op, cb)
+	b.placeOpcode(op, cb)
+	na := a.runToBoundary(7)
+	nb := b.runToBoundary(7)
+	x, y := a.c, b.c
+	vAssert("same-registers", x.a == y.a && x.f == y.f && x.b == y.b && x.c == y.c && x.d == y.d && x.e == y.e && x.h == y.h && x.l == y.l && x.sp == y.sp && x.pc == y.pc)
+	vAssert("same-cycles", na == nb)
+	vAssert("same-cpu-state", x.halted == y.halted && x.stopped == y.stopped && x.haltbug == y.haltbug && x.eiDelay == y.eiDelay)
+	probe := vU16("probe")
+	vAssert("same-memory", a.mp.Mem[probe] == b.mp.Mem[probe])
+	vAssert("same-interrupts", a.intr.ReadIE() == b.intr.ReadIE() && a.intr.ReadIF() == b.intr.ReadIF() && a.intr.Enabled() == b.intr.Enabled())
+	vReach("end")
+}
